@@ -56,6 +56,12 @@ type Case struct {
 	// drop (every peer closes its connection).
 	StopRace string `json:"stop_race,omitempty"`
 	RaceN    int    `json:"race_n,omitempty"`
+	// StopOn: Stop is called not at StopAtMs but in the instant a peer puts
+	// its StopOnK-th message of this kind on the wire (cfheaders | headers |
+	// block | cfilter | cfcheckpt), if that happens before StopAtMs: the
+	// answer and the shutdown race.
+	StopOn  string `json:"stop_on,omitempty"`
+	StopOnK int    `json:"stop_on_k,omitempty"`
 }
 
 func genCase(t *rapid.T) Case {
@@ -111,6 +117,10 @@ func genCase(t *rapid.T) Case {
 	c.StopAtMs = kit.Pick(t, "stopat", []int{0, 1, 50, 500, 2000, 7000, 20000, 45000})
 	c.StopRace = kit.Pick(t, "stoprace", []string{"", "grow", "grow", "headers", "drop"})
 	c.RaceN = rapid.IntRange(1, 8).Draw(t, "racen")
+	if kit.Uni(t, "stoponp", 3) == 0 {
+		c.StopOn = kit.Pick(t, "stopon", []string{"cfheaders", "cfheaders", "headers", "block", "cfilter", "cfcheckpt"})
+		c.StopOnK = kit.Pick(t, "stoponk", []int{1, 1, 2, 3, 5})
+	}
 	return c
 }
 
@@ -131,9 +141,68 @@ func runCase(t *testing.T, c Case) kit.Verdict {
 	for i := range c.Peers {
 		cfg.Initial = append(cfg.Initial, i)
 	}
+	// Stop is started once, either by the body at StopAtMs or by a peer's
+	// send hook (StopOn); the channel is made inside the bubble.
+	var (
+		trigMu    sync.Mutex
+		trigN     int
+		stopOnce  sync.Once
+		stopDone  chan struct{}
+		stopErr   error
+		stopEarly bool
+	)
+	var startStop func(early bool)
+	cfg.AfterStart = func(s *netsim.Sim) {
+		done := make(chan struct{})
+		trigMu.Lock()
+		stopDone = done
+		startStop = func(early bool) {
+			stopOnce.Do(func() {
+				trigMu.Lock()
+				stopEarly = early
+				trigMu.Unlock()
+				go func() {
+					defer close(done)
+					err := s.StopClient()
+					trigMu.Lock()
+					stopErr = err
+					trigMu.Unlock()
+				}()
+			})
+		}
+		trigMu.Unlock()
+	}
 	setup := func(s *netsim.Sim) {
 		for i, ps := range c.Peers {
 			p := s.Peers[i]
+			if c.StopOn != "" {
+				p.OnSend = func(_ *netsim.Peer, m wire.Message) {
+					k := ""
+					switch m.(type) {
+					case *wire.MsgCFHeaders:
+						k = "cfheaders"
+					case *wire.MsgHeaders:
+						k = "headers"
+					case *wire.MsgBlock:
+						k = "block"
+					case *wire.MsgCFilter:
+						k = "cfilter"
+					case *wire.MsgCFCheckpt:
+						k = "cfcheckpt"
+					}
+					if k != c.StopOn {
+						return
+					}
+					trigMu.Lock()
+					trigN++
+					f := startStop
+					hit := trigN == c.StopOnK
+					trigMu.Unlock()
+					if hit && f != nil {
+						f(true)
+					}
+				}
+			}
 			p.SetView(path[min(len(path)-1, c.World.Base+ps.Ahead)], false)
 			switch ps.Kind {
 			case "noblocks":
@@ -236,6 +305,14 @@ func runCase(t *testing.T, c Case) kit.Verdict {
 		now := 0
 		dropped := make([]bool, len(c.Peers))
 		for now <= c.StopAtMs {
+			trigMu.Lock()
+			early := stopEarly
+			trigMu.Unlock()
+			if early {
+				// Stop is already under way (StopOn): calls made
+				// after Stop are not the property's business
+				break
+			}
 			for _, st := range states {
 				if !st.started && st.c.AtMs <= now {
 					start(st)
@@ -317,12 +394,12 @@ func runCase(t *testing.T, c Case) kit.Verdict {
 			}
 			v.Class("stop-race:%s", c.StopRace)
 		}
-		stopDone := make(chan struct{})
-		var stopErr error
-		go func() {
-			defer close(stopDone)
-			stopErr = s.StopClient()
-		}()
+		trigMu.Lock()
+		if stopEarly {
+			v.Class("stop-on:%s", c.StopOn)
+		}
+		trigMu.Unlock()
+		startStop(false)
 		t0 := time.Now()
 		waitAll := func() bool {
 			select {
